@@ -1,6 +1,8 @@
 import Driver.Common
 import Aoe.Model.Codec
 import Aoe.Generated.Tables
+import Aoe.Model.Commit
+import Aoe.Generated.MgrTables
 /-!
 Shared driver state and commands for the structure-codec properties (C01, C02, C04, C12 …).
 
@@ -18,6 +20,8 @@ Commands:
   consistent                      → true | false
   defaults                        → ok            (tree := the table's defaults)
   settree H{…} B[…]               → ok            (tree := the given canonical text)
+  commit [mgr0,mgr1,…]            → ok | error <kind>   (M4: commit the managers' pushed values into the tree)
+  construct                       → [mgr0,…]            (M4: what the managers' constructors receive)
 -/
 open Aoe Aoe.Codec Aoe.Bytes
 
@@ -211,6 +215,26 @@ def codecStep (st : CState) (ws : List String) : Option (CState × String) :=
       | .ok h, .ok b => some (st, s!"ok hdr={hexOrDash h} body={hexOrDash b}")
       | .error e, _ => some (st, "error " ++ showErr e)
       | _, .error e => some (st, "error " ++ showErr e)
+    | none => some (st, "bad-op")
+  | ["commit", m] =>
+    -- m = canonical list of the manager objects (pushed values in link order), managers in `reconstruct` order
+    match st.table, Aoe.Generated.mgrOf st.version, readVal m with
+    | some _, some (classes, managers, secNames), some (.list objs) =>
+      let secs : Aoe.Commit.Sections := { names := secNames, recs := (Val.strct st.tree.header) :: st.tree.body }
+      match Aoe.Commit.commitAll classes managers objs secs with
+      | .ok s' =>
+        match s'.recs with
+        | .strct h :: b => some ({ st with tree := { st.tree with header := h, body := b } }, "ok")
+        | _ => some (st, "error shape")
+      | .error e => some (st, "error " ++ showErr e)
+    | _, _, _ => some (st, "bad-op")
+  | ["construct"] =>
+    match Aoe.Generated.mgrOf st.version with
+    | some (classes, managers, secNames) =>
+      let secs : Aoe.Commit.Sections := { names := secNames, recs := (Val.strct st.tree.header) :: st.tree.body }
+      match managers.mapM (fun m => Aoe.Commit.constructObj classes 4 m [] secs) with
+      | .ok os => some (st, showVal (.list os))
+      | .error e => some (st, "error " ++ showErr e)
     | none => some (st, "bad-op")
   | ["whybad"] =>
     match st.table with
